@@ -14,6 +14,7 @@ import (
 )
 
 type Clause struct {
+	AtReturn int // >0: the clause applies only at the k-th return statement (source order)
 	Kind  string // requires ensures invariant assert
 	Tags  []string
 	Label string
@@ -83,6 +84,7 @@ type Contracts struct {
 	GhostF map[string]map[string]*GhostDecl // type key -> field -> decl
 	Shapes map[string]*ShapeDecl            // typekey.field
 	Impls  map[string][]string
+	OtherImpl map[string][]string
 	Lemmas []*Lemma
 	Errs   []string
 }
@@ -101,7 +103,7 @@ type Lemma struct {
 
 func NewContracts() *Contracts {
 	return &Contracts{Funcs: map[string]*Contract{}, Pures: map[string]*PureFn{}, Ghosts: map[string]*GhostDecl{},
-		GhostF: map[string]map[string]*GhostDecl{}, Shapes: map[string]*ShapeDecl{}, Impls: map[string][]string{}}
+		GhostF: map[string]map[string]*GhostDecl{}, Shapes: map[string]*ShapeDecl{}, Impls: map[string][]string{}, OtherImpl: map[string][]string{}}
 }
 
 var tagRe = regexp.MustCompile(`^C[0-9]{2,3}$`)
@@ -227,6 +229,13 @@ func (cs *Contracts) LoadFile(path, pkg string) error {
 			}
 			return &Clause{Kind: kind, Tags: tags, Label: label, Expr: e, Text: ex, File: path, Line: it.line}
 		}
+		atRet := 0
+		if strings.HasPrefix(kw, "ensures@") {
+			if k, err := strconv.Atoi(kw[len("ensures@"):]); err == nil {
+				atRet = k
+				kw = "ensures"
+			}
+		}
 		switch kw {
 		case "func", "funcvar":
 			curLemma = nil
@@ -296,6 +305,7 @@ func (cs *Contracts) LoadFile(path, pkg string) error {
 			if c == nil {
 				continue
 			}
+			c.AtReturn = atRet
 			if kw == "requires" {
 				cur.Requires = append(cur.Requires, c)
 			} else {
@@ -448,6 +458,13 @@ func (cs *Contracts) LoadFile(path, pkg string) error {
 			}
 			tk := qualifyType(pkg, lhs[:dot])
 			cs.Shapes[tk+"."+lhs[dot+1:]] = &ShapeDecl{TypeKey: tk, Field: lhs[dot+1:], Expr: e}
+		case "otherimplements":
+			// otherimplements IFACE: IFACE2, ...   the opaque dynamic types of IFACE values also implement IFACE2
+			i := strings.Index(rest, ":")
+			ifc := strings.TrimSpace(rest[:i])
+			for _, t := range strings.Split(rest[i+1:], ",") {
+				cs.OtherImpl[ifc] = append(cs.OtherImpl[ifc], strings.TrimSpace(t))
+			}
 		case "implementers":
 			// implementers io.ReadCloser: *decompressor, other
 			i := strings.Index(rest, ":")
